@@ -599,28 +599,58 @@ fn op_par(payload: &str, args: &[&str]) -> String {
 /// accepted value survives `to_string()` -> `parse` with identical bits, and that the `{:.3}`
 /// rendering used for FRAME-RATE re-parses (UFloat only). Implementation-only oracle.
 /// Answer: `ok <checked> <accepted> <failures> <first failing bits or ->`.
-fn op_sweep_f32(payload: &str, unsigned: bool) -> String {
-    use hls_m3u8::types::{Float, UFloat};
+/// which value carries the float through its text form
+#[derive(Clone, Copy, PartialEq)]
+enum Carrier {
+    Float,
+    UFloat,
+    /// `ExtXStart::new(Float)` -> `#EXT-X-START:TIME-OFFSET=…` -> `ExtXStart::try_from`
+    Start,
+    /// `Value::Float(Float)` (client attribute value) -> text -> `Value::try_from`
+    Value,
+}
+
+fn op_sweep_f32(payload: &str, carrier: Carrier) -> String {
+    use hls_m3u8::tags::ExtXStart;
+    use hls_m3u8::types::{Float, UFloat, Value};
     let mut it = payload.split(' ');
     let (start, count) = match (it.next().and_then(|x| x.parse::<u64>().ok()), it.next().and_then(|x| x.parse::<u64>().ok())) {
         (Some(a), Some(b)) if a + b <= (1u64 << 32) => (a, b),
         _ => return bad(),
     };
+    let unsigned = carrier == Carrier::UFloat;
     let (mut accepted, mut failures, mut first) = (0u64, 0u64, None);
     for bits in start..start + count {
         let bits = bits as u32;
         let x = f32::from_bits(bits);
         let should = x.is_finite() && !(unsigned && x.is_sign_negative());
-        let (got, back) = if unsigned {
-            match UFloat::try_from(x) {
+        let (got, back) = match carrier {
+            Carrier::UFloat => match UFloat::try_from(x) {
                 Ok(v) => (true, v.to_string().parse::<UFloat>().ok().map(|w| w.as_f32().to_bits())),
                 Err(_) => (false, None),
-            }
-        } else {
-            match Float::try_from(x) {
+            },
+            Carrier::Float => match Float::try_from(x) {
                 Ok(v) => (true, v.to_string().parse::<Float>().ok().map(|w| w.as_f32().to_bits())),
                 Err(_) => (false, None),
-            }
+            },
+            Carrier::Start => match Float::try_from(x) {
+                Ok(v) => {
+                    let text = ExtXStart::new(v).to_string();
+                    (true, ExtXStart::try_from(text.as_str()).ok().map(|w| w.time_offset().as_f32().to_bits()))
+                }
+                Err(_) => (false, None),
+            },
+            Carrier::Value => match Float::try_from(x) {
+                Ok(v) => {
+                    let text = Value::Float(v).to_string();
+                    let back = match Value::try_from(text.as_str()) {
+                        Ok(Value::Float(w)) => Some(w.as_f32().to_bits()),
+                        _ => None,
+                    };
+                    (true, back)
+                }
+                Err(_) => (false, None),
+            },
         };
         let ok = got == should && (!got || back == Some(bits));
         if got {
@@ -660,8 +690,10 @@ pub fn dispatch(op: &str, payload: &str, args: &[&str]) -> String {
         "cmpf32:UFloat" => return op_cmpf32_ufloat(payload, args),
         "f32:Float" => return op_f32_float(payload),
         "f32:UFloat" => return op_f32_ufloat(payload),
-        "sweepf32:Float" => return op_sweep_f32(payload, false),
-        "sweepf32:UFloat" => return op_sweep_f32(payload, true),
+        "sweepf32:Float" => return op_sweep_f32(payload, Carrier::Float),
+        "sweepf32:ExtXStart" => return op_sweep_f32(payload, Carrier::Start),
+        "sweepf32:Value" => return op_sweep_f32(payload, Carrier::Value),
+        "sweepf32:UFloat" => return op_sweep_f32(payload, Carrier::UFloat),
         "time" => return op_time(payload, args),
         "par" => return op_par(payload, args),
         "build_media" => return crate::builders::op_build_media(payload),
@@ -683,6 +715,9 @@ pub fn dispatch(op: &str, payload: &str, args: &[&str]) -> String {
     }
     if let Some(what) = op.strip_prefix("build_tag:") {
         return crate::builders::op_build_tag(what, payload);
+    }
+    if let Some(what) = op.strip_prefix("ctor:") {
+        return crate::builders::op_ctor(what, payload);
     }
     if let Some(what) = op.strip_prefix("owned:") {
         return with_own_kind!(what, op_owned, (payload), bad());
